@@ -9,6 +9,7 @@ import (
 	"fmt"
 
 	"github.com/alttpo/snes/emulator"
+	"github.com/alttpo/snes/emulator/memory"
 	"github.com/alttpo/snes/mapping/lorom"
 )
 
@@ -66,9 +67,33 @@ func arrOf(s *emulator.System, cls int) []byte {
 }
 
 // probeSystem returns the read and write page tables (tables 8 and 9) and a summary.
-func probeSystem(is *issues) (rd, wr []pageLine, info map[string]interface{}) {
-	info = map[string]interface{}{}
+// variant "": a fresh System.  variant "sysheader": the history a front end produces -- a ROM image with a
+// checksum-valid LoROM header (declaring 8 KiB of SRAM) is loaded BEFORE CreateEmulator, a device is temporarily
+// attached over ROM, SRAM and WRAM segments, the System is copied by value, and the copy is re-created and probed:
+// its map must be the LoROM map onto ITS OWN arrays, whatever the image declares.
+func probeSystem(is *issues, variant string) (rd, wr []pageLine, info map[string]interface{}) {
+	info = map[string]interface{}{"variant": variant}
 	s := &emulator.System{}
+	if variant == "sysheader" {
+		base := &emulator.System{}
+		for i := range base.ROM {
+			base.ROM[i] = byte(i*3 + 1)
+		}
+		h := base.ROM[0x7FB0:0x8000]
+		copy(h[0x10:0x25], []byte("VERIF TEST IMAGE     "))
+		h[0x25], h[0x26], h[0x27], h[0x28] = 0x20, 0x02, 0x0A, 0x03 // LoROM, ROM+RAM+battery, 1 MiB, 8 KiB SRAM
+		h[0x2A] = 0x33
+		h[0x2C], h[0x2D], h[0x2E], h[0x2F] = 0x34, 0x12, 0xCB, 0xED // complement, checksum: sum $FFFF
+		if err := base.CreateEmulator(); err != nil {
+			is.add("system_create", "system", "", 0, err.Error())
+			return
+		}
+		dev := &memory.FakeHW{}
+		for _, a := range []uint32{0x008000, 0x700000, 0x7E0000, 0x000000} {
+			base.Bus.Attach(dev, "overlay", a, a+0x0F)
+		}
+		*s = *base
+	}
 	if err := s.CreateEmulator(); err != nil {
 		is.add("system_create", "system", "", 0, err.Error())
 		return
